@@ -34,7 +34,7 @@ def must_see(tier):
          'both-raised-same': 500, 'shape-and-pickle-compared': 500,
          'absolute:lookup-absent': 200, 'absolute:write-typeerror': 200,
          'view-walks': 100, 'stale-separator-trees': 10,
-         'stored:sweep': 500, 'stored:commit': 100}
+         'stored:sweep': 500, 'stored:commit': 100, 'big-containers': 8}
     for lab in ('int', 'bool', 'float', 'str', 'bytes', 'none', 'tuple',
                 'plain', 'index', 'ordered', 'bytearray', 'memoryview',
                 'fraction', 'decimal'):
@@ -49,10 +49,216 @@ def plan(tier, seed):
         specs.append(dict(label=fam, family=fam, histories=24 if q else 2000,
                           seed=seed, tier=tier, variant='mon',
                           timeout=900 if q else 7200))
+    # containers far bigger than anything the histories build: leaves with
+    # tens of thousands of entries, three-level trees at the default node
+    # sizes, indexes beyond 32767 / 65535
+    for fam in (['II', 'OO'] if q else ['II', 'OO', 'LF', 'QQ', 'fs', 'UO']):
+        for kind in families.KINDS:
+            specs.append(dict(label='big-%s-%s' % (fam, kind), family=fam,
+                              big=kind, seed=seed, tier=tier, variant='mon',
+                              n=70000 if kind in families.TREE_KINDS
+                              else 70000, steps=250 if q else 2500,
+                              timeout=1800 if q else 7200))
+    if not q:
+        for kind in families.KINDS:
+            specs.append(dict(label='big-OO-%s-asan' % kind, family='OO',
+                              big=kind, seed=seed + 1, tier=tier,
+                              variant='asan', n=40000, steps=600,
+                              timeout=7200))
     return specs
 
 
+def big_keys(fam, n):
+    if fam.kc in INT_RANGES:
+        lo, hi = INT_RANGES[fam.kc]
+        start = max(lo, -n)
+        return [start + 2 * i for i in range(n)]
+    if fam.kc == 'f':
+        return [bytes([i // 256, i % 256]) for i in range(0, min(n, 65536),
+                                                           1)][::1]
+    return [2 * i for i in range(n)]
+
+
+def run_big(spec, rec):
+    """C and Python side by side on BIG containers, with a sorted list as
+    the model: lookups, range searches, the lazy sequences (indexes and
+    slices anywhere in 0..n, negative too), inserts and deletes."""
+    import bisect
+    fam = families.get(spec['family'])
+    kind = spec['big']
+    is_mapping = kind in families.MAPPING_KINDS
+    is_tree = kind in families.TREE_KINDS
+    rng = rng_for(spec['seed'], ID, spec['label'])
+    keys = big_keys(fam, spec['n'])
+    vals = [v for v in fam.values(rng)
+            if not isinstance(v, float) or f32(v) == v]
+    vals = [v for v in vals if not isinstance(v, (list, dict))]
+    objs = {}
+    for impl in ('c', 'py'):
+        cls = fam.cls(kind, impl)
+        # (this shard runs in a process of its own: the classes still have
+        # their default node sizes)
+        o = cls()
+        if is_mapping:
+            o.update([(k, vals[i % len(vals)]) for i, k in enumerate(keys)])
+        else:
+            o.update(keys)
+        objs[impl] = o
+    model = list(keys)          # sorted
+    mvals = {k: vals[i % len(vals)] for i, k in enumerate(keys)} \
+        if is_mapping else None
+    desc = dict(family=fam.name, kind=kind, impl='c-vs-py', n=len(keys),
+                big=True)
+    rec.ev('big-containers')
+    log = []
+
+    def fail(mech, **kw):
+        rec.violation(mech, history=[brief(x, 80) for x in log[-15:]],
+                      **dict(desc, **kw))
+
+    c, p = objs['c'], objs['py']
+    absent = None
+    for step in range(spec['steps']):
+        n = len(model)
+        r = rng.random()
+        rec.evaluations += 1
+        if r < 0.2 and is_tree:
+            what = 'index'
+            i = rng.choice([0, n - 1, -1, -n, n // 2, 32767, 32768, 65535,
+                            65536, rng.randrange(-n, n)])
+            log.append((what, i))
+            seqs = [o.keys() for o in (c, p)]
+            try:
+                got = [s_[i] for s_ in seqs]
+                want = model[i]
+            except IndexError:
+                got = want = None
+                try:
+                    model[i]
+                    want = 'value'
+                except IndexError:
+                    want = 'IndexError'
+                got = []
+                for s_ in seqs:
+                    try:
+                        got.append(s_[i])
+                    except IndexError:
+                        got.append('IndexError')
+            if any(not eq(g, want) for g in got):
+                fail('big-sequence-index-wrong', index=i, observed=brief(got),
+                     expected=brief(want))
+                return
+        elif r < 0.35 and is_tree:
+            what = 'slice'
+            i = rng.randrange(-n, n)
+            j = i + rng.randint(-3, 40)
+            log.append((what, i, j))
+            want = model[i:j]
+            for o in (c, p):
+                got = list(o.keys()[i:j])
+                if not eq(got, want):
+                    fail('big-sequence-slice-wrong', i=i, j=j,
+                         observed=brief(got, 200), expected=brief(want, 200))
+                    return
+        elif r < 0.5:
+            what = 'range'
+            a = model[rng.randrange(n)] if n else keys[0]
+            b = model[min(n - 1, model.index(a) + rng.randint(0, 50))] \
+                if n else a
+            em, ex = rng.random() < .5, rng.random() < .5
+            log.append((what, a, b, em, ex))
+            lo_ = bisect.bisect_right(model, a) if em else \
+                bisect.bisect_left(model, a)
+            hi_ = bisect.bisect_left(model, b) if ex else \
+                bisect.bisect_right(model, b)
+            want = model[lo_:hi_]
+            for o in (c, p):
+                got = list(o.keys(a, b, em, ex))
+                if not eq(got, want) or len(o.keys(a, b, em, ex)) != len(want):
+                    fail('big-range-wrong', observed=brief(got, 200),
+                         expected=brief(want, 200))
+                    return
+        elif r < 0.65:
+            what = 'lookup'
+            k = model[rng.randrange(n)] if n and rng.random() < .7 else \
+                rng.choice(keys)
+            log.append((what, k))
+            i_ = bisect.bisect_left(model, k)
+            present = i_ < n and model[i_] == k
+            for o in (c, p):
+                if (k in o) != present or (
+                        is_mapping and present and
+                        not eq(o[k], fam.norm_val(mvals[k]))):
+                    fail('big-lookup-wrong', key=brief(k), expected=present)
+                    return
+        elif r < 0.85:
+            what = 'delete'
+            if not n:
+                continue
+            # runs of neighbouring keys: whole leaves go away
+            i_ = rng.randrange(n)
+            run = model[i_:i_ + rng.choice([1, 1, 1, 40, 200])]
+            log.append((what, brief(run[:2]), len(run)))
+            for k in run:
+                for o in (c, p):
+                    if is_mapping:
+                        del o[k]
+                    else:
+                        o.remove(k)
+            del model[i_:i_ + len(run)]
+        else:
+            what = 'insert'
+            k = rng.choice(keys)
+            i_ = bisect.bisect_left(model, k)
+            present = i_ < n and model[i_] == k
+            v = vals[step % len(vals)]
+            log.append((what, k))
+            for o in (c, p):
+                if is_mapping:
+                    o[k] = v
+                else:
+                    o.add(k)
+            if not present:
+                model.insert(i_, k)
+            if is_mapping:
+                mvals[k] = v
+        rec.seen('big', kind, what, len(model) > 32767)
+        if step % 50 == 49 or step == spec['steps'] - 1:
+            for o in (c, p):
+                if len(o) != len(model) or not eq(list(o.keys()), model):
+                    fail('big-contents-wrong', len=len(o),
+                         expected_len=len(model))
+                    return
+            if is_tree:
+                for o in (c, p):
+                    try:
+                        o._check()
+                    except Exception as e:
+                        fail('big-tree-damaged', detail='%s: %s' % (
+                            type(e).__name__, e))
+                        return
+            # (no whole-tree pickle here: a chain of a thousand leaves
+            # exceeds the pickler's recursion limit; a database pickles node
+            # by node.  Shape and separators instead.)
+            if is_tree:
+                wc = walker.walk(c, is_mapping, check_sizes=False).release()
+                wp = walker.walk(p, is_mapping, check_sizes=False).release()
+                if wc.errors or wp.errors or wc.shape != wp.shape or \
+                        not eq(wc.separators, wp.separators):
+                    fail('big-shapes-differ', c=brief(wc.shape, 150),
+                         py=brief(wp.shape, 150),
+                         errors=(wc.errors + wp.errors)[:3])
+                    return
+            else:
+                if not eq(c.__getstate__(), p.__getstate__()):
+                    fail('big-states-differ')
+                    return
+
+
 def run_shard(spec, rec):
+    if spec.get('big'):
+        run_big(spec, rec)
+        return
     fam = families.get(spec['family'])
     pal = families.hostile_palette()
     for kind in families.KINDS:
